@@ -805,7 +805,8 @@ namespace foonathan
                     for (std::size_t i = 0u; i != size_; ++i)
                         objects_[i].~T();
 
-                    if (size_)
+                    // also give the memory back if already the first element could not be created
+                    if (objects_)
                         stack_->unwind(objects_);
                 }
 
@@ -830,6 +831,7 @@ namespace foonathan
                 {
                     auto res = size_;
                     size_    = 0u;
+                    objects_ = nullptr;
                     return res;
                 }
 
